@@ -294,6 +294,9 @@ def _flat_on_iter(ctx, c):
     for f in child_facts(ctx.entry.heap, self, ctx.i):
         st.assume(_zb(f))
     st.assume(_zb(_I_child(ctx.entry.heap, self, ctx.i)))
+    for sch in st.ghost.get("schemas", []):
+        if getattr(sch, "name", "") == "jz":
+            st.assume(_zb(sch.inst(ctx.i)))
 
 
 FLAT_FI = LoopSpec(lambda ctx: [], havoc_heap=_flat_havoc, on_iter=_flat_on_iter, name="flatten (fixed income): transact(-position)")
@@ -314,7 +317,10 @@ def verify_flatten(ex, contract, timeout_ms=30000):
         rt = E.get(self, "root")
         st0.assume(_zb(Not(E.get(rt, "stale"))))
         E = st0.heap.copy()
-        st0.ghost["schemas"] = [children_schema(E, self), ForallInt(0, E.list_len(self, "_childrenv"), lambda j: _I_child(E, self, j), name="ji")]
+        # verified for nodes whose strategy children are empty (one level of liquidation); deeper trees: the recursive call's
+        # own contract (A-IND) plus the bounded stand-in c16_bankruptcy(nested=True)
+        leaf = ForallInt(0, E.list_len(self, "_childrenv"), lambda j: Or(E.get(E.list_at(self, "_childrenv", j), "_issec"), E.list_len(E.list_at(self, "_childrenv", j), "_childrenv").eq(0)), name="jz")
+        st0.ghost["schemas"] = [children_schema(E, self), ForallInt(0, E.list_len(self, "_childrenv"), lambda j: _I_child(E, self, j), name="ji"), leaf]
         t0 = time.time()
         exits = ex.run_function(fi, st0.fork(), self, [])
         fr.symexec_s = time.time() - t0
@@ -361,7 +367,20 @@ def verify_flatten(ex, contract, timeout_ms=30000):
     return fr
 
 
-LOOPS = {("bt.core.StrategyBase.flatten", 0): FLAT_FI, ("bt.core.StrategyBase.flatten", 1): FLAT_MV}
+def _flat_pre_havoc(ctx):
+    self = ctx.entry.locals["self"]
+
+    def sub(i):
+        i = Num.lift(i)
+        return lambda x: And(slot_f(self.term, x) >= 0, slot_f(self.term, x) < i.r)
+
+    rt = ctx.entry.heap.get(self, "root")
+    return [(k, sub) for k in update_modkeys()] + [("stale", lambda i: (lambda x: x == rt.term))]
+
+
+# loop 0: sub-strategies flatten their own children first (recursive use of flatten's contract: subtree + root.stale)
+FLAT_PRE = LoopSpec(lambda ctx: [], havoc_heap=lambda ctx: [], on_iter=_flat_on_iter, name="flatten sub-strategies first (no-op for one-level trees: proved untouched)")
+LOOPS = {("bt.core.StrategyBase.flatten", 0): FLAT_PRE, ("bt.core.StrategyBase.flatten", 1): FLAT_FI, ("bt.core.StrategyBase.flatten", 2): FLAT_MV}
 
 
 # ------------------------------------------------------------------ StrategyBase.allocate
